@@ -125,10 +125,11 @@ class CursorQueries(DesignPart):
     """every query at every cursor position (also outside the text): no panic, locations inside the text (C03); the cursor lies in
     find-all-references of what it resolves to, and every returned position spells the entity's identifier (C08)"""
 
-    def __init__(self, name, designs, mode, required=(), time_cap=None):
+    def __init__(self, name, designs, mode, required=(), time_cap=None, window=None, window_at=0):
         self.name, self.designs, self.mode = name, designs, mode
+        self.window, self.window_at = window, window_at
         self.required_classes = required; self.time_cap = time_cap
-        self.bounds = dict(designs=[d['name'] for d in designs], cursor='line and character unconstrained u32 (inside and outside the text), any file of the design',
+        self.bounds = dict(designs=[d['name'] for d in designs], cursor='line and character unconstrained u32 (inside and outside the text), any file of the design' + (f'; files longer than {window} lines: lines of one {window}-line window (rotating with VERIF_SEED) or beyond the text' if window else ''),
                            queries='item_at_cursor, find_declaration, find_definition, find_type_definition, find_implementation, list_completion_options; find_all_references and format_declaration of the declaration found',
                            std='bundled std library, parsed and analysed by the real code')
 
@@ -139,6 +140,10 @@ class CursorQueries(DesignPart):
         fi = choose(ctx, inp, 'file', len(D['files'])); fname = '/p/' + D['files'][fi][1]
         src = pr.sources[fname]
         cur = cursor_of(ctx, inp)
+        nl = D['files'][fi][2].count('\n') + 1
+        if self.window and nl > self.window and inp.symbolic:
+            lo = (self.window_at * self.window) % nl
+            ctx.assume(z3.Or(z3.And(z3.UGE(cur.fields[0].e, lo), z3.ULT(cur.fields[0].e, lo + self.window)), z3.UGE(cur.fields[0].e, nl)))
         P = ValRef(pr.agg); S = ValRef(src)
         out = {}
         try:
@@ -203,7 +208,9 @@ class CursorQueries(DesignPart):
 
     def harness(self, chk):
         self.bases(chk)
-        def h(ctx): self.run(chk, ctx, SymInputs(ctx))
+        def h(ctx):
+            ctx.step_limit = max(ctx.step_limit, 60_000_000)
+            self.run(chk, ctx, SymInputs(ctx))
         return h
 
     def case_of(self, w):
@@ -335,7 +342,9 @@ class RefsBack(DesignPart):
 
     def harness(self, chk):
         self.bases(chk)
-        def h(ctx): self.run(chk, ctx, SymInputs(ctx))
+        def h(ctx):
+            ctx.step_limit = max(ctx.step_limit, 60_000_000)
+            self.run(chk, ctx, SymInputs(ctx))
         return h
 
     def replay_case(self, chk, w, v):
@@ -459,7 +468,9 @@ class MutatedAnalysis(DesignPart):
 
     def harness(self, chk):
         self.bases(chk)
-        def h(ctx): self.run(chk, ctx, SymInputs(ctx))
+        def h(ctx):
+            ctx.step_limit = max(ctx.step_limit, 60_000_000)
+            self.run(chk, ctx, SymInputs(ctx))
         return h
 
     def text_of(self, w):
